@@ -179,7 +179,68 @@ func c03Set(root interface{}, p c03Path, val interface{}, del bool) interface{} 
 
 func pick(list []string, arg int) string { return list[((arg%len(list))+len(list))%len(list)] }
 
+// c03DeclSurgery (op 12) edits one record / envelope / segment declaration of the file_declaration in a way that keeps
+// it close to valid: a second target, a missing name, occurrence bounds of zero.
+func c03DeclSurgery(root interface{}, m c03Mut) interface{} {
+	var decls []map[string]interface{}
+	var walk func(v interface{}, underDecls bool)
+	walk = func(v interface{}, underDecls bool) {
+		switch t := v.(type) {
+		case map[string]interface{}:
+			if underDecls {
+				decls = append(decls, t)
+			}
+			for k, c := range t {
+				switch k {
+				case "records", "child_records", "envelopes", "child_envelopes", "segment_declarations", "child_segments":
+					if arr, ok := c.([]interface{}); ok {
+						for _, e := range arr {
+							walk(e, true)
+						}
+					}
+				default:
+					walk(c, false)
+				}
+			}
+		case []interface{}:
+			for _, e := range t {
+				walk(e, false)
+			}
+		}
+	}
+	if top, ok := root.(map[string]interface{}); ok {
+		walk(top["file_declaration"], false)
+	}
+	if len(decls) == 0 {
+		return root
+	}
+	d := decls[((m.Path%len(decls))+len(decls))%len(decls)]
+	switch ((m.Arg % 7) + 7) % 7 {
+	case 0:
+		d["is_target"] = true
+	case 1:
+		delete(d, "name")
+	case 2:
+		d["max"] = json.Number("0")
+	case 3:
+		d["min"], d["max"] = json.Number("0"), json.Number("0")
+	case 4:
+		d["max"] = json.Number("1")
+	case 5:
+		delete(decls[0], "name")
+		decls[0]["is_target"] = true
+		d["is_target"] = true
+		d["max"] = json.Number("1")
+	default:
+		delete(d, "is_target")
+	}
+	return root
+}
+
 func c03Apply(root interface{}, m c03Mut) interface{} {
+	if m.Op == 12 {
+		return c03DeclSurgery(root, m)
+	}
 	var paths []c03Path
 	c03Walk(root, nil, &paths)
 	if len(paths) == 0 {
@@ -340,7 +401,7 @@ func genC03(t *rapid.T) c03Case {
 	for i := 0; i < nm; i++ {
 		c.Muts = append(c.Muts, c03Mut{
 			Path: rapid.IntRange(0, 5000).Draw(t, fmt.Sprintf("m%dpath", i)),
-			Op:   rapid.SampledFrom([]int{0, 1, 2, 3, 4, 5, 6, 7, 8, 9, 9, 9, 9, 9, 9, 9, 9, 9, 9, 9, 9, 10, 10, 10, 10, 10, 10, 11}).Draw(t, fmt.Sprintf("m%dop", i)),
+			Op:   rapid.SampledFrom([]int{0, 1, 2, 3, 4, 5, 6, 7, 8, 9, 9, 9, 9, 9, 9, 9, 9, 9, 9, 9, 9, 10, 10, 10, 10, 10, 10, 11, 12, 12, 12}).Draw(t, fmt.Sprintf("m%dop", i)),
 			Arg:  rapid.IntRange(0, 5000).Draw(t, fmt.Sprintf("m%darg", i)),
 		})
 	}
